@@ -422,6 +422,14 @@ pub fn run(cfg: &Cfg) {
         let pred = format!("{{\"builder\":{{\"id\":\"b\"}},\"metadata\":{{\"buildStartedOn\":\"{}\",\"buildFinishedOn\":\"{}\"}}}}", date, date);
         feed_all_parsers(&mut sink, pred.as_bytes());
     }
+    // ---- rule application on well-typed but hostile rules and artifact names (empty and root prefixes,
+    //      rejected patterns, names that clean to `/` or to nothing)
+    for _ in 0..(if cfg.thorough { 60_000 } else { 6_000 }) {
+        let s = crate::c03::gen_hostile_scn(&mut r);
+        let ans = crate::c03::run_impl(&s);
+        sink.stat(&format!("hostile-rules/{}", ans));
+        sink.oracle(ans != "panic", "apply_rules_on_link panicked on well-typed rules and artifact names", &format!("rules {}", crate::c03::encode(&s)));
+    }
     // ---- hostile link directories
     let nd = if cfg.thorough { 1500 } else { 120 };
     for _ in 0..nd {
